@@ -141,13 +141,33 @@ LOG_RX = re.compile(r"\b(?:debug_now|debug|info_now|info|trace_now|trace|warn_no
                     r"\((?:[^()]|\((?:[^()]|\([^()]*\))*\))*\) ;? ?")
 
 
+USE_AS_RX = re.compile(r"\buse ((?:\w+ :: )*\w+) as (\w+) ; ")
+
+
+def inline_local_aliases(body):
+    """`use Path as Alias;` inside a function body: substitute and drop"""
+    for m in list(USE_AS_RX.finditer(body)):
+        path, alias = m.group(1), m.group(2)
+        body = body.replace(m.group(0), "")
+        body = re.sub(r"(?<![\w:] )(?<![\w])%s\b" % re.escape(alias), path, body)
+    return body
+
+
 def strip_logging(x):
     """logging macro invocations carry no behaviour any property speaks about: drop them from every
     function / arm body before anything is read (so they can be added, removed or reworded freely)"""
     if isinstance(x, dict):
+        if x.get("kind") == "fn" and isinstance(x.get("body"), str) and USE_AS_RX.search(x["body"]):
+            aliases = [(m.group(1), m.group(2)) for m in USE_AS_RX.finditer(x["body"])]
+            for mt in x.get("matches", []):
+                for arm in mt.get("arms", []):
+                    for key in ("pat", "body"):
+                        if isinstance(arm.get(key), str):
+                            for path, alias in aliases:
+                                arm[key] = re.sub(r"(?<![\w])%s\b" % re.escape(alias), path, arm[key])
         for k, v in list(x.items()):
             if k == "body" and isinstance(v, str):
-                x[k] = LOG_RX.sub("", v)
+                x[k] = inline_local_aliases(LOG_RX.sub("", v))
             else:
                 strip_logging(v)
     elif isinstance(x, list):
@@ -169,9 +189,63 @@ class Model:
         for f, it in self.items:
             if it["kind"] in ("struct", "enum", "type", "const", "trait"):
                 self.by_name.setdefault(it["name"], []).append(it)
+        self.compute_cmodules()
         self.impls = [it for _, it in self.items if it["kind"] == "impl"]
         self.macros = [it for _, it in self.items if it["kind"] == "macro"]
         self.fns = [it for _, it in self.items if it["kind"] == "fn"]
+
+    # ------------------------------------------------------------------ re-exports
+    def compute_cmodules(self):
+        """canonical (publicly reachable) module of every item: an item of a private module that its
+        parent re-exports with `pub use` is known to the outside — and to the specification, the
+        harness and the baseline — under the parent's path"""
+        mods = {}
+        for _, it in self.items:
+            if it["kind"] == "mod":
+                mods[(it["module"], it["name"])] = (it.get("vis") or "").strip()
+        private = {k for k, v in mods.items() if not v.startswith("pub") or "crate" in v or "super" in v}
+
+        def resolve(path, base):
+            segs = path.split("::")
+            if segs[0] == "crate":
+                return "::".join(segs[1:])
+            cur = base
+            while segs and segs[0] in ("self", "super"):
+                if segs[0] == "super":
+                    cur = "::".join(cur.split("::")[:-1])
+                segs = segs[1:]
+            if path.split("::")[0] in ("self", "super"):
+                return (cur + "::" + "::".join(segs)).strip(":")
+            if (base, segs[0]) in mods:
+                return (base + "::" + "::".join(segs)).strip(":")
+            return None            # an external crate or an unresolvable path
+
+        reexp = {}                  # (source module, name or "*") -> re-exporting module
+        for _, it in self.items:
+            if it["kind"] == "use" and (it.get("vis") or "").strip() == "pub":
+                for u in it["paths"]:
+                    full = resolve(u["path"], it["module"])
+                    if full is None:
+                        continue
+                    if u["glob"]:
+                        reexp[(full, "*")] = it["module"]
+                    elif u["alias"] is None or u["alias"] == full.split("::")[-1]:
+                        reexp[("::".join(full.split("::")[:-1]), full.split("::")[-1])] = it["module"]
+        for _, it in self.items:
+            if "name" not in it or "module" not in it:
+                continue
+            m = it["module"]
+            for _ in range(6):
+                par, last = "::".join(m.split("::")[:-1]), m.split("::")[-1]
+                if m and (par, last) in private and ((m, it["name"]) in reexp or (m, "*") in reexp):
+                    m = reexp.get((m, it["name"]), reexp.get((m, "*")))
+                else:
+                    break
+            it["cmodule"] = m
+
+    @staticmethod
+    def key_of(it):
+        return it.get("cmodule", it["module"]) + "::" + it["name"]
 
     # ------------------------------------------------------------------ name resolution
     def lookup(self, path, module, kinds, features):
@@ -198,29 +272,31 @@ class Model:
             want = (mod + "::" + suffix).strip(":") if quals and quals[0] == "super" else None
             sel = []
             for it in cands:
-                m = it["module"]
-                if want is not None:
-                    if m == want:
+                for m in {it["module"], it.get("cmodule", it["module"])}:
+                    if want is not None:
+                        if m == want:
+                            sel.append(it)
+                            break
+                    elif m == suffix or m.endswith("::" + suffix) or (mod + "::" + suffix).strip(":") == m:
                         sel.append(it)
-                elif m == suffix or m.endswith("::" + suffix) or (mod + "::" + suffix).strip(":") == m:
-                    sel.append(it)
+                        break
             if len(sel) == 1:
                 return sel[0]
             if len(sel) > 1:
-                exact = [it for it in sel if it["module"] == (mod + "::" + suffix).strip(":")]
+                exact = [it for it in sel if (mod + "::" + suffix).strip(":") in (it["module"], it.get("cmodule"))]
                 if len(exact) == 1:
                     return exact[0]
             if not sel:
                 return None
             raise Untranslatable(path, f"ambiguous path in {module}")
-        same = [it for it in cands if it["module"] == module]
+        same = [it for it in cands if module in (it["module"], it.get("cmodule"))]
         if len(same) == 1:
             return same[0]
         # walk up parents
         m = module
         while m:
             m = "::".join(m.split("::")[:-1])
-            up = [it for it in cands if it["module"] == m]
+            up = [it for it in cands if m in (it["module"], it.get("cmodule"))]
             if len(up) == 1:
                 return up[0]
         if len(cands) == 1:
@@ -231,6 +307,25 @@ class Model:
     def const_value(self, expr, module, features, owner=None, depth=0):
         if depth > 20:
             raise Untranslatable(expr, "const recursion")
+        # `if cfg!(feature = "x") { A } else { B }`
+        cm = re.fullmatch(r"\s*if cfg ! \(\s*(not \()?\s*feature = \"([\w-]+)\"\s*\)?\s*\) \{(.*)\} else \{(.*)\}\s*", expr)
+        if cm:
+            on = (cm.group(2) in features) != bool(cm.group(1))
+            return self.const_value(cm.group(3) if on else cm.group(4), module, features, owner, depth + 1)
+        # `ARRAY_CONST.len()`
+        lm = re.fullmatch(r"\s*((?:\w+\s*::\s*)*\w+)\s*\.\s*len\s*\(\s*\)\s*", expr)
+        if lm:
+            it = self.lookup(lm.group(1).replace(" ", ""), module, ("const",), features)
+            if it is not None:
+                e = it["expr"].strip()
+                if e.startswith("[") and e.endswith("]"):
+                    inner = e[1:-1]
+                    if ";" in inner:            # [x; N]
+                        return self.const_value(inner.rsplit(";", 1)[1], it["module"], features, owner, depth + 1)
+                    return len([x for x in inner.split(",") if x.strip()])
+                if it["ty"].get("k") == "array":
+                    return self.const_value(it["ty"]["len"], it["module"], features, owner, depth + 1)
+            raise Untranslatable(expr, "length of a non-array constant")
         toks = expr.replace("{", " ( ").replace("}", " ) ").replace("(", " ( ").replace(")", " ) ").split()
         out = []
         i = 0
@@ -348,7 +443,7 @@ class Model:
             if name in ext:
                 return ext[name]
             raise Untranslatable(path, f"unknown type (in {module})")
-        key = it["module"] + "::" + it["name"]
+        key = self.key_of(it)
         if key in stack:
             raise Untranslatable(key, "recursive type")
         if it["kind"] == "type":
@@ -360,12 +455,13 @@ class Model:
         mod, name = key.rsplit("::", 1) if "::" in key else ("", key)
         it = None
         for c in self.by_name.get(name, []):
-            if c["module"] == mod and c["kind"] in ("struct", "enum"):
+            if c.get("cmodule", c["module"]) == mod and c["kind"] in ("struct", "enum"):
                 en, _ = effective_attrs(c.get("attrs", []), features)
                 if en:
                     it = c
         if it is None:
             raise Untranslatable(key, "type not present in this configuration")
+        mod = it["module"]          # names inside the item resolve where it is defined
         en, attrs = effective_attrs(it["attrs"], features)
         d = derives(attrs)
         sargs = serde_args(attrs)
@@ -457,12 +553,25 @@ class Model:
                     de.append([self.str_const(pat, mod, features, owner=name), variants.index(mm.group(1))])
         if any(s is None for s in ser):
             raise Untranslatable(name, "From<Enum> for &str table incomplete")
+        seen, uniq = set(), []
+        for k_, i_ in de:               # a repeated pattern can never match: first occurrence wins
+            if k_ not in seen:
+                seen.add(k_)
+                uniq.append([k_, i_])
+        de = sorted(uniq, key=lambda x: (x[1], x[0]))    # arms with distinct patterns commute
         return ser, de
 
     def single_match(self, imp, fn_name):
         for f in imp["items"]:
             if f["kind"] == "fn" and f["name"] == fn_name:
                 if not f["matches"]:
+                    # a conversion that only delegates to an inherent helper (`value.as_str()`, `Self::from_code(x)`)
+                    dm = re.fullmatch(r"\{ (?:\w+|Self) (?:\.|::) (\w+) \((?:\w*)\) \}", (f.get("body") or "").strip())
+                    if dm:
+                        cands = [g for i2 in self.impls if i2["trait"] is None and i2["module"] == imp["module"]
+                                 for g in i2["items"] if g["kind"] == "fn" and g["name"] == dm.group(1) and g.get("matches")]
+                        if len(cands) == 1:
+                            return cands[0]["matches"][0]
                     raise Untranslatable(imp["self_ty"], f"{fn_name}: no match expression")
                 return f["matches"][0]
         raise Untranslatable(imp["self_ty"], f"fn {fn_name} not found")
@@ -476,7 +585,7 @@ class Model:
         return out
 
     def indexed_ty(self, it, attrs, features, d):
-        key = it["module"] + "::" + it["name"]
+        key = self.key_of(it)
         off = 0
         for a in attrs:
             if a["p"] in ("serde_indexed", "serde"):
@@ -517,7 +626,7 @@ class Model:
                 "caps": {"ser": "SerializeIndexed" in d, "de": "DeserializeIndexed" in d}}
 
     def text_ty(self, it, attrs, features, d):
-        key = it["module"] + "::" + it["name"]
+        key = self.key_of(it)
         rename_all = None
         for k, v in serde_args(attrs):
             if k == "rename_all":
@@ -592,6 +701,9 @@ class Model:
         for f in self.fns:
             if f["name"] == name and (module is None or f.get("module") == module):
                 return f
+        for f in self.fns:          # moved into a (private) sub-module
+            if f["name"] == name and module is not None and (f.get("module") or "").startswith(module + "::"):
+                return f
         return None
 
     STR_HELPERS = {
@@ -655,7 +767,7 @@ class Model:
         return None
 
     def custom_ty(self, it, features):
-        key = it["module"] + "::" + it["name"]
+        key = self.key_of(it)
         name = it["name"]
         has_de = self.manual_impl("Deserialize", name) is not None
         has_ser = self.manual_impl("Serialize", name) is not None
@@ -665,8 +777,8 @@ class Model:
             fields = self.fields_of(it, features)
             if len(fields) != 1:
                 raise Untranslatable(key, "expected a one-field tuple struct")
-            vt = fields[0][0]["ty"]
-            if vt["name"] != "Vec" or len(vt["args"]) != 2:
+            vt = self.arb_resolve(fields[0][0]["ty"], it["module"], features)
+            if vt.get("name") != "Vec" or len(vt["args"]) != 2:
                 raise Untranslatable(key, "expected Vec<Known.., N>")
             cap = self.const_arg(vt["args"][1], it["module"], features)
             known_expr = None
@@ -716,7 +828,7 @@ class Model:
             elem_key = None
             for c in self.by_name.get("PublicKeyCredentialParameters", []):
                 if c["kind"] == "struct":
-                    elem_key = c["module"] + "::" + c["name"]
+                    elem_key = self.key_of(c)
             elem = self.named_ty(elem_key, features)
             rust = [f["rust"] for f in elem.get("fields", [])]
             if rust != ["alg", "key_type"]:
@@ -782,7 +894,7 @@ class Model:
             en, attrs = effective_attrs(it["attrs"], features)
             if not en:
                 continue
-            key = it["module"] + "::" + it["name"]
+            key = self.key_of(it)
             d = derives(attrs)
             serdeish = d & {"Serialize", "Deserialize", "SerializeIndexed", "DeserializeIndexed",
                             "Serialize_repr", "Deserialize_repr"}
@@ -912,6 +1024,11 @@ class Model:
                 for arm in self.single_match(imp, "from")["arms"]:
                     pat = arm["pat"].replace(" ", "")
                     v = parse_int_lit(arm["body"].strip())
+                    if v is None and not pat.startswith("Vendor(") and "Vendor(" not in pat:
+                        try:
+                            v = self.const_value(arm["body"].strip(), imp["module"], feats, owner="Operation")
+                        except Untranslatable:
+                            v = None
                     if v is not None:
                         arms.append({"variant": pat.split("::")[-1], "byte": v})
                     elif pat.startswith("Vendor("):
@@ -971,6 +1088,7 @@ class Model:
                     c = c.strip()
                     if not c:
                         continue
+                    c = re.sub(r"# \[\s*doc\s*=\s*\"(?:[^\"\\]|\\.)*\"\s*\]\s*", "", c).strip()
                     cm = re.match(r"const (\w+) = (.*)$", c)
                     if not cm:
                         raise Untranslatable("bitflags", f"odd flag {c}")
@@ -988,6 +1106,13 @@ class Model:
         m = re.search(r"Err \(\s*Error :: (\w+)\s*\)\s*\}$", lb)
         t["large_blobs_default_error"] = m.group(1) if (m and "self ." not in lb and "Ok (" not in lb) else None
         m = re.search(r'b"((?:[^"\\]|\\.)*)"', t["version_default"])
+        if not m:
+            # `*U2F_V2` / `U2F_V2`: a named byte-string constant
+            nm = re.fullmatch(r"\{ \*?\s*((?:\w+ :: )*\w+) \}", t["version_default"].strip())
+            if nm:
+                for c in self.by_name.get(nm.group(1).split(" :: ")[-1], []):
+                    if c["kind"] == "const":
+                        m = re.search(r'b"((?:[^"\\]|\\.)*)"', c["expr"])
         t["version_default_bytes"] = m.group(1) if m else None
         t["rpc2_delegates"] = bool(re.fullmatch(r"\{ self \. call_ctap2 \(request\) \}", t["rpc2"]))
         t["rpc1_delegates"] = bool(re.fullmatch(r"\{ self \. call_ctap1 \(request\) \}", t["rpc1"]))
@@ -1013,6 +1138,10 @@ class Model:
             consts["truncate_window"] = self.truncate_window()
         except Untranslatable:
             consts["truncate_window"] = None        # reported by the `strhelpers` group
+        missing = [k for k, v in consts.items() if v is None and k in ("AUTHENTICATOR_DATA_LENGTH", "THEORETICAL_MAX_MESSAGE_SIZE",
+                   "MAX_CREDENTIAL_COUNT_IN_LIST", "COUNT_KNOWN_ALGS", "NO_ERROR", "ASN1_SIGNATURE_LENGTH")]
+        if missing:
+            raise Untranslatable("constants", "cannot evaluate " + ", ".join(missing))
         t["consts"] = consts
 
     def _t_strhelpers(self, t, feats):
@@ -1203,7 +1332,7 @@ class Model:
                     u2fbuf = bm.group(1)
                     for arm in mt["arms"]:
                         pat = arm["pat"].replace(" ", "")
-                        mm = re.fullmatch(r"Response::(\w+)\((\w+)\)", pat)
+                        mm = re.fullmatch(r"(?:Response|Self)::(\w+)\((\w+)\)", pat)
                         if not mm or arm.get("guard"):
                             raise Untranslatable("ctap1::Response::serialize", f"arm pattern {pat}")
                         variant, var = mm.group(1), mm.group(2)
@@ -1245,32 +1374,41 @@ class Model:
                    "letins=matchapdu.instruction(){iso7816::Instruction::Unknown(ins)=>ins,_ins=>0,}",
                    "letp1=apdu.p1", "let_p2=apdu.p2"]
 
+    def u2f_num(self, tok):
+        v = parse_int_lit(tok)
+        if v is None:
+            try:
+                v = self.const_value(tok, "ctap1", frozenset())
+            except Untranslatable:
+                v = None
+        return v
+
     def u2f_cond(self, where, c):
         for rx, f in ((r"cla!=(\w+)", lambda n: {"k": "claNe", "n": n}), (r"ins==(\w+)", lambda n: {"k": "insEq", "n": n}),
                       (r"request\.len\(\)!=(\w+)", lambda n: {"k": "lenNe", "n": n}),
                       (r"request\.len\(\)<(\w+)", lambda n: {"k": "lenLt", "n": n})):
             m = re.fullmatch(rx, c)
             if m:
-                v = parse_int_lit(m.group(1))
+                v = self.u2f_num(m.group(1))
                 if v is None:
                     raise Untranslatable(where, f"condition operand {m.group(1)}")
                 return f(v)
         m = re.fullmatch(r"request\.len\(\)!=(\w+)\+key_handle_length", c)
-        if m and parse_int_lit(m.group(1)) is not None:
-            return {"k": "lenNeBasePlusVar", "n": parse_int_lit(m.group(1))}
+        if m and self.u2f_num(m.group(1)) is not None:
+            return {"k": "lenNeBasePlusVar", "n": self.u2f_num(m.group(1))}
         raise Untranslatable(where, f"condition not recognised: {c[:60]}")
 
     def u2f_slice(self, where, e):
         m = re.fullmatch(r"\(&request\[(\w*)\.\.(\w*)\]\)\.try_into\(\)\.unwrap\(\)", e)
         if m:
-            lo = parse_int_lit(m.group(1)) if m.group(1) else 0
-            hi = parse_int_lit(m.group(2)) if m.group(2) else None
+            lo = self.u2f_num(m.group(1)) if m.group(1) else 0
+            hi = self.u2f_num(m.group(2)) if m.group(2) else None
             if lo is None or (m.group(2) and hi is None):
                 raise Untranslatable(where, "slice bound " + e)
             return {"k": "arr32", "lo": lo, "hi": hi}
         m = re.fullmatch(r"&request\[(\w+)\.\.\]", e)
-        if m and parse_int_lit(m.group(1)) is not None:
-            return {"k": "tail", "lo": parse_int_lit(m.group(1))}
+        if m and self.u2f_num(m.group(1)) is not None:
+            return {"k": "tail", "lo": self.u2f_num(m.group(1))}
         raise Untranslatable(where, f"slice expression not recognised: {e[:60]}")
 
     def u2f_final(self, where, e):
@@ -1305,8 +1443,8 @@ class Model:
                 steps.append({"k": "control"})
                 continue
             m = re.fullmatch(r"letkey_handle_length=request\[(\w+)\]asusize", st)
-            if m and parse_int_lit(m.group(1)) is not None:
-                steps.append({"k": "bindIdx", "i": parse_int_lit(m.group(1))})
+            if m and self.u2f_num(m.group(1)) is not None:
+                steps.append({"k": "bindIdx", "i": self.u2f_num(m.group(1))})
                 continue
             raise Untranslatable(where, f"statement not recognised: {st[:80]}")
         return steps
@@ -1369,7 +1507,9 @@ class Model:
             if (imp["trait"] or "").replace(" ", "") == "TryFrom<u8>" and imp["self_ty"].strip() == "ControlByte":
                 for arm in self.single_match(imp, "try_from")["arms"]:
                     b = arm["body"].replace(" ", "")
-                    mm = re.fullmatch(r"Err\(Error::(\w+)\)", b)
+                    while b.startswith("{") and b.endswith("}"):
+                        b = b[1:-1]
+                    mm = re.fullmatch(r"Err\((?:Error|Self::Error)::(\w+)\)", b)
                     if mm:
                         errs.add(mm.group(1))
                     elif not b.startswith("Ok("):
@@ -1507,7 +1647,20 @@ class Model:
             elif (mm := re.fullmatch(r"u\.bytes\((\w+)\)\?\.try_into\(\)\.unwrap\(\)", expr)):
                 n = parse_int_lit(mm.group(1))
                 want = rawty["inner"] if rawty["k"] == "ref" else rawty
-                if n is None or want.get("k") != "array" or parse_int_lit(want["len"].strip()) != n:
+                if want.get("k") == "path":
+                    want = self.arb_resolve(want, mod, feats)
+                if n is None:
+                    try:
+                        n = self.const_value(mm.group(1), "arbitrary", feats)
+                    except Untranslatable:
+                        n = None
+                wl = None
+                if want.get("k") == "array":
+                    try:
+                        wl = self.const_value(want["len"], mod, feats)
+                    except Untranslatable:
+                        wl = None
+                if n is None or wl != n:
                     raise Untranslatable(where, f"{var}: u.bytes({mm.group(1)}) does not match the member's array length")
                 g = {"k": "bytesArr", "n": n}
             elif (mm := re.fullmatch(r"\*u\.choose\(&(?:\w+::)*(\w+)\)\?", expr)):
@@ -1777,14 +1930,17 @@ class Model:
                 body = arm["body"].replace(" ", "")
                 if body.startswith("match"):
                     continue
-                mm = re.match(r"^Error::(\w+)$", body)
+                while body.startswith("{") and body.endswith("}"):
+                    body = body[1:-1]
+                mm = re.match(r"^(?:Error|Self)::(\w+)$", body)
                 if not mm:
                     raise Untranslatable("From<CtapMappingError>", f"odd arm body {arm['body']}")
                 if pat.startswith("CtapMappingError::InvalidCommand"):
                     out.append(["invalid_command", mm.group(1)])
-                elif pat == "cbor_smol::Error::SerdeMissingField":
+                elif pat in ("cbor_smol::Error::SerdeMissingField",
+                             "CtapMappingError::ParsingError(cbor_smol::Error::SerdeMissingField)"):
                     out.append(["missing_field", mm.group(1)])
-                elif pat == "_":
+                elif pat in ("_", "CtapMappingError::ParsingError(_)"):
                     out.append(["other", mm.group(1)])
                 else:
                     raise Untranslatable("From<CtapMappingError>", f"odd arm {arm['pat']}")
@@ -1839,7 +1995,7 @@ class Model:
             if "CtapMappingError::InvalidCommand" in body:
                 kind = {"k": "invalid"}
             else:
-                mm = re.match(r"^\{?Request::(\w+)(\((.*)\))?\}?$", body)
+                mm = re.match(r"^\{?(?:Request|Self)::(\w+)(\((.*)\))?\}?$", body)
                 if not mm:
                     raise Untranslatable("Request::deserialize", f"odd arm {arm['body']}")
                 if mm.group(2) is None:
